@@ -96,7 +96,7 @@ def reserved_covers_emitted(tier="quick", seed=0):
         missing.append(("<user reserved names are not honoured>", "ModuleScope.__init__"))
     for w, where in missing:
         violations.append({
-            "kind": "custom", "qual": "<C06 reserved_covers_emitted>", "case": w, "oid": f"C06/reserved_covers_emitted[{w}]", "check": "reserved_covers_emitted", "key": w,
+            "kind": "custom", "counted": True, "qual": "<C06 reserved_covers_emitted>", "case": w, "oid": f"C06/reserved_covers_emitted[{w}]", "check": "reserved_covers_emitted", "key": w,
             "assignment": {"identifier": w, "emitted_at": where}, "solver": {"identifier": w, "emitted_at": where, "reserved": False}, "reproduced": True,
             "replay_payload": {"property": "C06", "custom": "contracts.c06_extra.replay_reserved", "identifier": w, "obligation": f"C06/reserved_covers_emitted[{w}]", "verifier_output": f"{w} is emitted at {where} but a user object may be named {w}"},
         })
@@ -160,7 +160,7 @@ def balanced_templates(tier="quick", seed=0):
                 else:
                     key = f"{rel}:{lit}"
                     violations.append({
-                        "kind": "custom", "qual": "<C06 balanced_templates>", "case": lit, "oid": f"C06/balanced_templates[{rel}:{n.lineno}]", "check": "balanced_templates", "key": key,
+                        "kind": "custom", "counted": True, "qual": "<C06 balanced_templates>", "case": lit, "oid": f"C06/balanced_templates[{rel}:{n.lineno}]", "check": "balanced_templates", "key": key,
                         "assignment": {"template": lit, "at": f"{rel}:{n.lineno}"}, "solver": {"template": lit}, "reproduced": True,
                         "replay_payload": {"property": "C06", "custom": "contracts.c06_extra.replay_template", "template": lit, "file": rel, "obligation": f"C06/balanced_templates[{rel}:{n.lineno}]", "verifier_output": f"unbalanced parentheses in emitted text template {lit!r}"},
                     })
